@@ -26,7 +26,9 @@ RULE = ("stateful mostly-valid generator over 4 users with different and changin
         "users followed by the receiver using the received token (optionally after the sender settled), week advances of "
         "1..7 weeks, intra-week epoch advances, setBoostedYieldsFactors between weeks (incl. rejected argument sets and "
         "cE+cF=0), percentage changes (0..10000, 10001), percentage before factors, collectUndistributedBoostedRewards by "
-        "admin and non-admin, updateEnergyForUser, pause/resume, rate changes, malformed payments.  non-trivial = successful "
+        "admin and non-admin, updateEnergyForUser, pause/resume, rate changes, malformed payments; energies and positions exactly at / "
+        "one off the configured minimums; factor changes right after a week change; plus 3 scripted corpus histories (sender "
+        "settles, transfers, receiver compounds; percentage before factors; nobody eligible, then collect).  non-trivial = successful "
         "user operation that pays a boosted reward for at least one week, or a collect that sweeps a non-empty week; "
         "distinct by (operation, weeks paid, binding bound, inexact division, position received from another user, "
         "first claim of the week, magnitude) / (weeks swept, never-frozen pool swept)")
@@ -207,6 +209,39 @@ def nontrivial(cfg, op, o):
     return (k, min(len([x for x in o["paid"].values() if x > 0]), 4), tuple(sorted(bound)), inexact, received, first, mag(o["b"]))
 
 
+E18 = 10 ** 18
+# scripted histories run in every exploration besides the generated ones (deterministic regression corpus)
+CORPUS = [
+    dict(name="transfer-then-receiver-compounds",
+         cfg=dict(dsc=10 ** 12, same=True, rate=10 ** 15, epoch0=5, scale=E18, late_factors=False),
+         ops=[["SetPct", 100, 2500], ["SetFactors", 100, [2, 3, 2, 1, 1]],
+              ["Energy", 1, 7000 * E18, 10 * E18], ["Energy", 2, 3000 * E18, 10 * E18], ["Energy", 3, 500 * E18, E18],
+              ["Enter", 1, E18, []], ["Enter", 2, 2 * E18, []], ["Enter", 3, E18, []],
+              ["Advance", 100, 7],
+              ["ClaimBoosted", 1], ["Transfer", 1, 1, 2, E18], ["Compound", 2, (2, 2 * E18), [(1, E18)]],
+              ["Claim", 3, (3, E18), []],
+              ["Advance", 100, 7], ["SetFactors", 100, [1, 1, 1, 1, 1]],
+              ["Transfer", 5, 3, 1, E18 // 2], ["Claim", 1, (5, E18 // 2), []], ["Exit", 3, (5, E18 // 4)],
+              ["Merge", 2, [(4, E18)]], ["Enter", 4, 5 * E18, []],
+              ["Advance", 1000, 49], ["Collect", 2], ["Collect", 100], ["Collect", 100], ["ClaimBoosted", 2]]),
+    dict(name="percentage-before-factors",
+         cfg=dict(dsc=10 ** 12, same=False, rate=10 ** 6, epoch0=0, scale=1000, late_factors=True),
+         ops=[["SetPct", 100, 2500], ["Energy", 1, 10 ** 9, 10 ** 5], ["Energy", 2, 10 ** 8, 10 ** 5],
+              ["Enter", 1, 100, []], ["Enter", 2, 100, []], ["Advance", 10, 7],
+              ["Enter", 3, 10 ** 8, []], ["Transfer", 3, 3, 1, 10 ** 8], ["Claim", 1, (3, 10 ** 8), []],
+              ["SetFactors", 100, [2, 1, 1, 1, 1]], ["Advance", 10, 7],
+              ["ClaimBoosted", 1], ["Enter", 1, 5, []], ["Claim", 2, (2, 100), []],
+              ["Advance", 10, 7], ["ClaimBoosted", 1], ["ClaimBoosted", 2]]),
+    dict(name="nobody-eligible-then-collect",
+         cfg=dict(dsc=10 ** 12, same=False, rate=10 ** 6, epoch0=5, scale=1000, late_factors=False),
+         ops=[["SetFactors", 100, [2, 1, 1, 10, 10]], ["SetPct", 100, 2500],
+              ["Enter", 1, 1000, []], ["Enter", 2, 3000, []], ["Energy", 3, 5, 0], ["Enter", 3, 3000, []],
+              ["Advance", 10, 7], ["Claim", 1, (1, 1000), []], ["Claim", 3, (3, 3000), []],
+              ["Advance", 10, 56], ["Exit", 2, (2, 1000)], ["Collect", 100],
+              ["Advance", 10, 7], ["Collect", 100], ["Collect", 1]]),
+]
+
+
 def _gen(args):
     seed, nops = args
     cfg, trace = sb.gen_history(seed, nops)
@@ -219,6 +254,8 @@ def explore(tier, seed, model_ok=True, focus=False):
     nh, nops = budgets(tier)
     seeds = [seed * 100000 + i for i in range(nh)]
     hist = []
+    for c in CORPUS:
+        hist.append((f"corpus:{c['name']}", c["cfg"], sb.replay_history(c["cfg"], c["ops"])))
     with concurrent.futures.ProcessPoolExecutor(max_workers=16) as pool:
         for sd, cfg, trace in pool.map(_gen, [(s, nops) for s in seeds], chunksize=2):
             hist.append((sd, cfg, trace))
